@@ -334,7 +334,10 @@ Definition chk_671 (a o : list (list N)) : bool :=
   let remote := enc_cerr (of_quinn (QApp (varint_q2w code) reason)) in
   let local := enc_cerr (of_quinn QLocally) in
   let dgp := flat_map (fun _ => [1; 1]) dg in
-  if argn 0 5 a =? 1 then
+  if argn 0 5 a =? 2 then
+    (* tokio I/O traits: one read_exact over two deliveries returns the payload, then end-of-stream *)
+    lists_eqb o [[1; 1; 1; 0; 1; 1]]
+  else if argn 0 5 a =? 1 then
     (* tight connection credit: either the machine could not be calibrated ([[3]]: no verdict) or the
        1000 bytes arrive exactly, then end-of-stream *)
     lists_eqb o [[3]] || lists_eqb o [[1; 1]; [1; 1000; 0]]
